@@ -14,13 +14,16 @@ import (
 	"github.com/nspcc-dev/neo-go/pkg/core/transaction"
 	"github.com/nspcc-dev/neo-go/pkg/crypto/hash"
 	"github.com/nspcc-dev/neo-go/pkg/crypto/keys"
+	"github.com/nspcc-dev/neo-go/pkg/io"
 	"github.com/nspcc-dev/neo-go/pkg/neotest"
 	"github.com/nspcc-dev/neo-go/pkg/neotest/chain"
 	"github.com/nspcc-dev/neo-go/pkg/smartcontract"
+	"github.com/nspcc-dev/neo-go/pkg/smartcontract/callflag"
 	"github.com/nspcc-dev/neo-go/pkg/smartcontract/manifest"
 	"github.com/nspcc-dev/neo-go/pkg/smartcontract/nef"
 	"github.com/nspcc-dev/neo-go/pkg/smartcontract/trigger"
 	"github.com/nspcc-dev/neo-go/pkg/util"
+	"github.com/nspcc-dev/neo-go/pkg/vm/emit"
 	"github.com/nspcc-dev/neo-go/pkg/vm/opcode"
 	"github.com/nspcc-dev/neo-go/pkg/vm/vmstate"
 	"go.uber.org/zap"
@@ -146,6 +149,23 @@ func (w *world) deployVerifier(name string, nops int, ret bool) *acct {
 	h := state.CreateContractHash(w.e.Validator.ScriptHash(), ne.Checksum, name)
 	w.e.DeployContract(w.tb, &neotest.Contract{Hash: h, NEF: ne, Manifest: m}, nil)
 	return &acct{contract: true, returns: ret, name: name, hash: h}
+}
+
+// ledgerGuard makes an account whose inline (non-standard) verification script reads chain state:
+// it is true while Ledger.currentIndex() < k. Its cost is observed on the real VM.
+func (w *world) ledgerGuard(k uint32) *acct {
+	bw := io.NewBufBinWriter()
+	emit.AppCall(bw.BinWriter, w.e.NativeHash(w.tb, nativenames.Ledger), "currentIndex", callflag.ReadStates)
+	emit.Int(bw.BinWriter, int64(k))
+	emit.Opcodes(bw.BinWriter, opcode.LT)
+	script := bw.Bytes()
+	a := &acct{contract: true, returns: true, name: fmt.Sprintf("guard<%d", k), script: script, hash: hash.Hash160(script)}
+	used, err := w.bc.VerifyWitness(a.hash, dummyTx(a.hash), &transaction.Witness{InvocationScript: []byte{}, VerificationScript: script}, 1<<40)
+	if err != nil {
+		panic(tbFail{fmt.Sprintf("ledger guard does not verify: %v", err)})
+	}
+	a.cost = used
+	return a
 }
 
 func pushData1(b []byte) []byte {
